@@ -3,7 +3,7 @@
     repair; the reverse of each repair is a seeded mutation), and hypotheses of the C12 theorems shown to be
     NECESSARY. *)
 From Teleport Require Import Base.Bytes Base.Outcome Base.AList Model.Registry Model.RegistryCheck
-  Proofs.RegistryMap Proofs.Registry Proofs.RegistryInst Gen.RegistryGen Proofs.RegistrySource.
+  Proofs.RegistryMap Proofs.Registry Proofs.RegistryInst Proofs.RegistrySource.
 
 Definition with_flags (reindex guard direct gall hex base gaddr : bool) : variant :=
   {| v_reindex_all := reindex; v_update_guard := guard; v_mint_direct := direct; v_genesis_all := gall;
@@ -145,9 +145,11 @@ Proof.
   split; [apply monitor_decides; vm_compute; split; reflexivity | vm_compute; reflexivity].
 Qed.
 
-(** Why the oracle hypothesis is restricted to hex-address texts: on ARBITRARY texts the real GetID (whatever the hash)
-    collides, because the separator may occur inside the text.  The unrestricted injectivity the first version of the
-    C12 theorems assumed is therefore false of the real function; the restricted one is all the proofs need. *)
-Theorem C12_getid_not_injective_on_arbitrary_texts : forall H : bytes -> bytes,
-  hid_of_source H getid_parts (B "a|b") (B "c") = hid_of_source H getid_parts (B "a") (B "b|c") /\ B "a|b" <> B "a".
-Proof. intro H. split; [reflexivity | discriminate]. Qed.
+(** Why the oracle hypothesis is restricted to hex-address texts: on ARBITRARY texts EVERY function of GetID's shape
+    (hash of text ++ separator ++ denomination, whatever the hash and the separator) collides, because the separator may
+    occur inside the text.  The unrestricted injectivity the first version of the C12 theorems assumed is therefore
+    false of the real function; the restricted one is all the proofs need. *)
+Theorem C12_getid_not_injective_on_arbitrary_texts : forall (H : bytes -> bytes) ps,
+  getid_shape_ok ps = true ->
+  exists t d t' d', t <> t' /\ hid_of_source H ps t d = hid_of_source H ps t' d'.
+Proof. exact source_getid_collides. Qed.
